@@ -5,3 +5,31 @@ package main
 
 //@ func LoadHIDIConfig
 //@   safety [C09]
+
+// ---- C18 (partial): start-up upkeep never opens anything for writing outside the factory tree and the blacklist.
+// Frame clause only: every OS call that can create or change something (OpenFile with a write flag, Mkdir) is a call-site
+// obligation on its path argument, for every state of the file system (all OS calls are arbitrary). Restoration and
+// idempotence are not decided (they need an axiomatised file system).
+
+//@ pred underFactory(p string) := ext("strings.HasPrefix", p, "hidi-config/factory", "bool")
+//@ pred underConfig(p string) := ext("strings.HasPrefix", p, "hidi-config", "bool")
+
+// existing configuration directory: the walk is rooted at hidi-config/factory
+//@ func updateHIDIConfiguration$2
+// (the walk is over the embedded template tree, which is compiled in: its roots exist, so entries are never nil)
+//@   requires underFactory(path) && entry != nil
+//@   callassert os.OpenFile [C18] flag == 0 || (name == path && underFactory(name))
+//@   callassert os.Mkdir [C18] name == path && underFactory(name)
+//@   safety [C18]
+
+// directory did not exist at all: the whole template tree is created below hidi-config (there are no user files yet)
+//@ func updateHIDIConfiguration$1
+//@   requires underConfig(path) && d != nil
+//@   callassert os.OpenFile [C18] name == path && underConfig(name) && flag & 512 == 0
+//@   callassert os.Mkdir [C18] name == path && underConfig(name)
+//@   safety [C18]
+
+//@ func updateHIDIConfiguration
+//@   callassert os.OpenFile [C18] flag == 0 || (name == "hidi-config/device blacklist.txt" && flag & 512 == 0)
+//@   callassert fs.WalkDir [C18] root == "hidi-config" || root == "hidi-config/factory"
+//@   safety [C18]
